@@ -24,7 +24,7 @@ CHECKS = {
              "each module kind's adjoint is its transposed Jacobian and the Jacobian is the exact derivative. Model tied to core_objects.py by "
              "exact correspondence on random DAG programs (int64) after every operation; oracle: exact dual-number derivative of the real network.",
         ref="§5 C02", technique="Lean 4 proof (induction over the module list, big-operator algebra) + exact correspondence + exact-derivative oracle",
-        note=NOTE_COMMON + "The chain rule for the COMPOSED response (fwdChain is the derivative of Prog.response) is not a theorem; it is checked by the dual-number oracle on the real code on every run."),
+        note=NOTE_COMMON + "The chain rule for the COMPOSED response is a theorem for the polynomial module kinds of the program model (response_taylor / response_dual / backprop_is_total_derivative_of_response: exact Taylor expansion and dual-number identity); for library modules it rests on C01 and is checked by the dual-number oracle on the real code on every run. Networks that are extended after nesting (late append) and list-valued slice indices are covered by dedicated correspondence streams."),
     "C03": dict(
         text="Generic Lean theorem over a caching-component model (Core/Component.lean): if under a cache invariant outputs and sensitivities are functions "
              "of current inputs/seeds only (HistFree), every protocol-respecting history over {set,response,seed,sensitivity,reset} refines the cache-free "
@@ -33,7 +33,7 @@ CHECKS = {
              "correspondence on random histories; the property itself is checked on the real code for every module family, LinSolve matrix-class changes and FE networks "
              "(history vs fresh instance).",
         ref="§5 C03", technique="Lean 4 proof (refinement by induction over histories) + correspondence + fresh-instance oracle on the real code",
-        note=NOTE_COMMON + "Per-module discharge of the HistFree contract for the library's caches is by the fresh-instance oracle (bounded, seeded), not by proof, except for the three generic instances; sparse EigenSolve (ARPACK) is partial."),
+        note=NOTE_COMMON + "Per-module discharge of the HistFree contract for the library's caches is by the fresh-instance oracle (bounded, seeded; matrix-class-changing histories for LinSolve/SystemOfEquations/StaticCondensation/Inverse/EigenSolve, nested and late-appended networks, several seeded passes per response), not by proof, except for the generic instances (stateless, overwrite cache, guess with unique solution, linear solve); sparse EigenSolve (ARPACK start vector) is partial: compared to solver tolerance."),
     "C16": dict(
         text="Lean theorems: AggActiveSet mask = value band minus floor-counted lowest/highest argsort positions (zero count removes nothing), AggScaling first/step/undamped-exact/recurrence, "
              "module response anatomy; over R: P-norm, KS and soft-max bounds incl. the sharp soft-max bound, and HasDerivAt of each aggregation = pairing with the coded derivative. "
@@ -58,14 +58,14 @@ CHECKS = {
              "CG: r = b - A x after every iteration for every preconditioner/restart/rank pattern/initial guess, hence the tolerance exit bounds the true residual; auto_determine_solver returns a class containing A. "
              "Correspondence: factors read from the REAL solver objects are checked against the contract and fed to the exact model; CG iterates compared; oracle: residuals, shape, dtype on every real result.",
         ref="§5 C05", technique="Lean 4 proof (matrix algebra under factorisation contracts, loop invariant for CG) + correspondence on real factor objects + residual oracle",
-        note=NOTE_COMMON + "PARTIAL: LAPACK/SuperLU factorisations are contracts checked numerically per case; CG convergence within maxit (cg_correct_partial), orth_span, multigrid partition of unity are observed, not proved. Optional back-ends (pardiso, cholmod, cvxopt, umfpack) are not installed and not covered."),
+        note=NOTE_COMMON + "PARTIAL: LAPACK/SuperLU factorisations are contracts checked numerically per case; CG convergence within maxit is a hypothesis (cg_correct_partial: IF the loop exits by tolerance the true residual is bounded); orth (orthogonality, span, totality) and the multigrid interpolation (partition of unity, reproduces linear fields) are proved. Optional back-ends (pardiso, cholmod, cvxopt, umfpack) are not installed and not covered."),
     "C06": dict(
         text="Lean state-machine proof for LDAWrapper over any field with conjugation: get_diagonal_indices is exactly 'decoupled in row AND column'; the storage/conjugation mode table solves the requested system; "
              "invariant (every stored pair is a solution pair of the current matrix, zero on the diagonal set; flags truthful) holds initially and is preserved by update and solve; for EVERY history and all modes, "
              "vector/block, each answer is exact when the inner solver ran and otherwise has exactly the residual that passed the tolerance test; update forgets earlier matrices; totality. "
              "Correspondence on histories against the real wrapper around a counting proxy (x, did_solve, inner-call counts, database sizes, flags, diagonal set), all 3x3 sparsity patterns in the thorough tier.",
         ref="§5 C06", technique="Lean 4 proof (invariant by induction over update/solve histories, inner solver as contract parameter) + history correspondence with call counting",
-        note=NOTE_COMMON + "PARTIAL: ldas_reuse is proved for a zero remaining rhs; 'rhs in the span of stored rhs => remainder zero' (needs orthogonality in the invariant) and the irrelevance of normalisation are only observed by the call-count correspondence."),
+        note=NOTE_COMMON + "The orthogonality invariant (inv_orth_*) gives ldas_reuse (a rhs in the span of the stored rhs is answered without an inner solve) and ldas_norm_irrelevant (scaling stored pairs changes no answer); Props/C07LDAS.lean composes the wrapper with LinSolve. The floating-point tolerance test itself (|r| <= tol |b|) is modelled exactly (rational) and compared on dyadic data."),
     "C08": dict(
         text="Lean theorems for every grid, ndof, bc set, scaling vector: the assembled matrix equals the scaled element sum scattered through the connectivity, zero on bc rows/cols, bcdiagval on their diagonal, plus the constant; "
              "stiffness symmetric, u^T K u = sum x_e sum_g w eps^T D eps >= 0 (D PSD per plane mode), rigid-body motions in the null space at every integration point, mass total rho V sum x per direction, Poisson constants/linear energy. "
@@ -84,7 +84,7 @@ CHECKS = {
              "sensitivity loop structure and the three scalar derivative atoms. Float model with bit-exact transport vs the real filter (direction attribute exact, outputs and sensitivities to tolerance); "
              "independent layer-by-layer oracle and symmetry pairs on the real code.",
         ref="§5 C14", technique="Lean 4 proof (decide tables, induction over layers, real analysis atoms) + Float-model correspondence + recomputation oracle",
-        note=NOTE_COMMON + "PARTIAL: overhang_sens_is_backprop_partial (loop = reverse passes; per-support increment = seed x true partial) lacks the scatter/gather re-indexing to J^T; cross-axis swap with mapped direction is oracle-only; libm vs numpy pow/log/sqrt to tolerance."),
+        note=NOTE_COMMON + "overhang_sens_is_backprop: the coded reverse loop returns J^T seed of the layer recursion, and overhang_response_hasDerivAt makes J the genuine derivative over R (eps > 0); the older _partial statement is kept beside it. PARTIAL: cross-axis swap with mapped direction is oracle-only; libm vs numpy pow/log/sqrt to tolerance."),
     "C09": dict(
         text="Lean theorems (3-D statements, 2-D = nelz 0; arbitrary sizes, kernels, pad widths): closed forms of np.pad symmetric/edge/wrap; _process_padding is the per-axis extension; FilterConv output = sum w[a,b,c] x~[i+px-a, ...] "
              "with x~ the field extended by the selected rule (+overrides); constants and range preserved for non-negative sum-one kernels without constant padding (both filters); every radius kernel is non-negative, "
@@ -107,13 +107,12 @@ CHECKS = {
         note=NOTE_COMMON + "Linearity of each library module's hand-written _sensitivity is established per module by C01's adjoint theorems where they exist and otherwise by the oracle (bounded, seeded)."),
     "C01": dict(
         text="Lean adjoint / derivative theorems per module model (audited together): complex-number modules, Scaling, ConcatSignal (Props/C01); FilterConv and DensityFilter adjoints (C09); "
-             "KS / P-norm / soft-max HasDerivAt = pairing with the coded derivative (C16); NodalOperation = transpose of ElementOperation (C12); overhang reverse sweep structure + derivative atoms (C14, partial); "
+             "KS / P-norm / soft-max HasDerivAt = pairing with the coded derivative (C16); NodalOperation = transpose of ElementOperation (C12); overhang reverse sweep = J^T seed with J the derivative (C14); assembly, element/nodal operators (C01Assembly); EinSum / MathGeneral (C01Generic); implicit linear-algebra modules (C07, C11); "
              "dispatch = back step, coded adjoint of every polynomial kind = transposed Jacobian = exact derivative (C02). Correspondence: responses and sensitivities of the pointwise modules, both filters, "
              "aggregations and the overhang filter against the models. Property oracle on the real code for EVERY module family incl. LinSolve, Inverse, SystemOfEquations, StaticCondensation, EigenSolve, "
              "MathGeneral, EinSum, assembly with dense and dyadic seeds: Re<g,v> vs exact Jacobians / Richardson differences, partial seeds, class-preserving directions.",
         ref="§5 C01", technique="Lean 4 proof per module model (adjoint identities over fields, HasDerivAt over R) + correspondence + complete-Jacobian / Richardson oracle on all module families",
-        note=NOTE_COMMON + "PARTIAL: the implicit modules (LinSolve, Inverse, SoE, StaticCondensation, EigenSolve), assembly and EinSum/MathGeneral have no Lean adjoint theorem in this tree yet (C07/C11 verticals in progress): "
-             "for them the property is decided by the oracle (bounded, seeded). AutoMod (jax) is not installed. OverhangFilter's theorem is _partial."),
+        note=NOTE_COMMON + "Borrowed theorems (audited with this check): C07 adjoints of LinSolve/Inverse/SystemOfEquations/StaticCondensation in linearised-constraint form, C11 per-mode eigen adjoints (partial), C01Assembly (assembly dense/dyadic seeds, element/nodal operators), C01Generic (EinSum incl. trace/ones/real-operand rule, MathGeneral under the pointwise-derivative contract for sympy), C14 overhang_sens_is_backprop, C09/C16/C12/C02 as listed. PARTIAL: the implicit-function step for the implicit modules and sparse eigenvector sensitivities are decided by the oracle (bounded, seeded); AutoMod (jax) is not installed. OPEN FINDINGS: sparse EigenSolve with complex Hermitian matrices; EinSum with size-1 broadcast operands."),
     "C10": dict(
         text="Lean theorems over any ordered field: concat/split round trip, bound/move expansion (scalar, per-signal, per-variable), write-back to the right signals; both MMA versions reproduce value and gradient at the current design; "
              "asymptotes strictly enclose [alfa, beta] within bounds and move limit; one Newton pass of subsolv keeps x strictly inside (alfa, beta) and all multipliers/slacks positive (step-length rule + halving), hence every iterate is in bounds "
